@@ -7,7 +7,6 @@
 package main
 
 import (
-	"crypto/sha256"
 	"encoding/json"
 	"errors"
 	"fmt"
@@ -15,6 +14,7 @@ import (
 	"os"
 	"runtime"
 	"runtime/debug"
+	"runtime/pprof"
 	"sort"
 	"strconv"
 	"strings"
@@ -294,11 +294,13 @@ type explorer struct {
 	refGroups  []group
 	rotated    map[string]bool
 	nodes      []*node
-	index      map[[33]byte]int
+	index      map[skey]int
 	mu         sync.Mutex
 	runs       int64
 	faultKinds map[string]int64
 	reported   map[string]int
+	outcomes   map[string]int64
+	stateCount int
 }
 
 var positions = []fakeconn.Pos{fakeconn.ErrBefore, fakeconn.ErrAfter, fakeconn.KillAfter}
@@ -359,13 +361,12 @@ func (x *explorer) violate(rep report) {
 		replayDoc{Cluster: x.cluster, InitPolicy: x.initPolicy, Runs: rep.runs, Then: rep.then})
 }
 
-func stateKey(st *fakeconn.State, faults int) [33]byte {
-	var k [33]byte
-	h := sha256.Sum256([]byte(st.Canon()))
-	copy(k[:], h[:])
-	k[32] = byte(faults)
-	return k
+type skey struct {
+	fp     [2]uint64
+	faults int
 }
+
+func stateKey(st *fakeconn.State, faults int) skey { return skey{st.Fingerprint(), faults} }
 
 func (x *explorer) initialState() *fakeconn.State {
 	st := fakeconn.NewState(nil, []string{"c1"})
@@ -536,7 +537,7 @@ func (x *explorer) expand(n *node, cfgs []ctrlrun.Config) *expansion {
 				add(fr, "", in.findings)
 				if in.err == nil {
 					ex.outcomes["faulted_run:returns_nil"]++
-				} else if in.st.Canon() == n.st.Canon() {
+				} else if in.st.Fingerprint() == n.st.Fingerprint() {
 					ex.outcomes["faulted_run:error_state_unchanged"]++
 				} else {
 					ex.outcomes["faulted_run:error_state_partially_changed"]++
@@ -550,7 +551,7 @@ func (x *explorer) expand(n *node, cfgs []ctrlrun.Config) *expansion {
 				switch {
 				case fin.err != nil:
 					add(nr, "next_run", []finding{x.classifyFailure("run_after_interruption_fails", fin)})
-				case clean.err == nil && fin.st.Canon() != clean.st.Canon():
+				case clean.err == nil && fin.st.Fingerprint() != clean.st.Fingerprint():
 					d := fakeconn.DiffSchema(clean.st, fin.st)
 					cl := "settings_rows"
 					if d != "" {
@@ -594,7 +595,7 @@ func (x *explorer) explore() {
 	r := x.r
 	init := x.initialState()
 	x.deriveGroups(init)
-	x.index = map[[33]byte]int{}
+	x.index = map[skey]int{}
 	x.nodes = append(x.nodes, &node{id: 0, st: init, parent: -1})
 	x.index[stateKey(init, 0)] = 0
 	r.Distinct(x.label() + "/init")
@@ -604,9 +605,19 @@ func (x *explorer) explore() {
 	}
 	r.Sample(map[string]any{"exploration": x.label(), "marker_groups_observed": gs, "configurations": len(x.configs)})
 	frontier := []int{0}
+	lastLevelStates := 0
 	for depth := 0; depth < x.maxDepth && len(frontier) > 0; depth++ {
+		last := depth+1 >= x.maxDepth
 		nc := len(x.configs)
 		res := make([]*expansion, len(frontier)*nc)
+		// successors are de-duplicated by the workers so that only new states are kept in memory; among equal
+		// states the one produced by the smallest (task, successor) index wins, which keeps witnesses deterministic
+		type cand struct {
+			task, sub int
+			s         succ
+		}
+		level := map[skey]*cand{}
+		var lmu sync.Mutex
 		var wg sync.WaitGroup
 		ch := make(chan int, 64)
 		for w := 0; w < x.workers; w++ {
@@ -617,7 +628,31 @@ func (x *explorer) explore() {
 					if time.Now().After(r.Deadline) {
 						continue
 					}
-					res[i] = x.expand(x.nodes[frontier[i/nc]], x.configs[i%nc:i%nc+1])
+					ex := x.expand(x.nodes[frontier[i/nc]], x.configs[i%nc:i%nc+1])
+					keys := make([]skey, len(ex.succ))
+					for j, sc := range ex.succ {
+						f := sc.faults
+						if f > x.maxFaults {
+							f = x.maxFaults
+						}
+						keys[j] = stateKey(sc.st, f)
+					}
+					lmu.Lock()
+					for j, sc := range ex.succ {
+						if _, old := x.index[keys[j]]; old {
+							continue
+						}
+						if c, ok := level[keys[j]]; ok && (c.task < i || (c.task == i && c.sub <= j)) {
+							continue
+						}
+						if last {
+							sc.st = nil // states of the last level are never expanded: only their key is kept
+						}
+						level[keys[j]] = &cand{i, j, sc}
+					}
+					lmu.Unlock()
+					ex.succ = nil
+					res[i] = ex
 				}
 			}()
 		}
@@ -626,12 +661,10 @@ func (x *explorer) explore() {
 		}
 		close(ch)
 		wg.Wait()
-		var next []int
 		for ri, ex := range res {
-			i := ri / nc
 			if ex == nil {
 				r.Cap("internal deadline reached")
-				r.Extra["frontier_left "+x.label()] = len(frontier) - i
+				r.Extra["frontier_left "+x.label()] = len(frontier) - ri/nc
 				break
 			}
 			r.Transitions += ex.runs
@@ -641,42 +674,43 @@ func (x *explorer) explore() {
 				x.faultKinds[k] += v
 			}
 			for k, v := range ex.outcomes {
-				for ; v > 0; v-- {
-					r.Outcome(k)
-				}
+				x.outcomes[k] += v
 			}
 			for _, rep := range ex.reports {
 				x.violate(rep)
-			}
-			last := depth+1 >= x.maxDepth
-			for _, s := range ex.succ {
-				f := s.faults
-				if f > x.maxFaults {
-					f = x.maxFaults
-				}
-				k := stateKey(s.st, f)
-				if _, ok := x.index[k]; ok {
-					continue
-				}
-				id := len(x.nodes)
-				x.index[k] = id
-				nd := &node{id: id, parent: frontier[i], via: s.via, depth: depth + 1, faults: s.faults}
-				if !last {
-					nd.st = s.st // states of the last level are never expanded: keep only their key
-				}
-				x.nodes = append(x.nodes, nd)
-				if !last {
-					next = append(next, id)
-				}
 			}
 		}
 		if !r.Exhaustive {
 			break
 		}
+		if last {
+			lastLevelStates = len(level)
+			break
+		}
+		cands := make([]*cand, 0, len(level))
+		keyOf := map[*cand]skey{}
+		for k, c := range level {
+			cands = append(cands, c)
+			keyOf[c] = k
+		}
+		sort.Slice(cands, func(a, b int) bool {
+			if cands[a].task != cands[b].task {
+				return cands[a].task < cands[b].task
+			}
+			return cands[a].sub < cands[b].sub
+		})
+		var next []int
+		for _, c := range cands {
+			id := len(x.nodes)
+			x.index[keyOf[c]] = id
+			x.nodes = append(x.nodes, &node{id: id, st: c.s.st, parent: frontier[c.task/nc], via: c.s.via, depth: depth + 1, faults: c.s.faults})
+			next = append(next, id)
+		}
 		frontier = next
 	}
-	r.States += int64(len(x.nodes))
-	for i := 0; i < len(x.nodes) && i < 4000; i++ {
+	x.stateCount = len(x.nodes) + lastLevelStates
+	r.States += int64(x.stateCount)
+	for i := 0; i < x.stateCount && i < 4000; i++ {
 		r.Distinct(fmt.Sprintf("%s/%d", x.label(), i))
 	}
 }
@@ -722,7 +756,7 @@ func replay(r *ev.Run) {
 	if err := json.Unmarshal(b, &doc); err != nil {
 		ev.Fatal("replay: %v", err)
 	}
-	x := &explorer{r: r, cluster: doc.Replay.Cluster, initPolicy: doc.Replay.InitPolicy, faultKinds: map[string]int64{}}
+	x := &explorer{r: r, cluster: doc.Replay.Cluster, initPolicy: doc.Replay.InitPolicy, faultKinds: map[string]int64{}, outcomes: map[string]int64{}}
 	st := x.initialState()
 	x.deriveGroups(st)
 	for i, s := range doc.Replay.Runs {
@@ -768,7 +802,7 @@ func replay(r *ev.Run) {
 }
 
 func main() {
-	debug.SetGCPercent(400)
+	debug.SetGCPercent(200)
 	r := ev.Start("C19", "model_checking", 60*time.Second, 15*time.Minute)
 	r.Rule = "level-synchronous BFS over states (canonical catalogue of the fake server: TTL elements, storage policy, settings of every table + collapsed rows of `settings`); " +
 		"a transition is one real run of ctrl.Rotate with any configuration of the alphabet and no fault or one fault (statement index × {error before effect, effect then error, effect then kill}); " +
@@ -784,6 +818,10 @@ func main() {
 	if r.Replay != "" {
 		replay(r)
 		return
+	}
+	if pf := os.Getenv("C19_PROF"); pf != "" {
+		f, _ := os.Create(pf)
+		pprof.StartCPUProfile(f)
 	}
 	maxFaults := 1
 	if r.Thorough() {
@@ -807,18 +845,25 @@ func main() {
 		plans = []plan{{false, "", false, maxFaults}, {true, "", false, maxFaults}, {false, "p1", true, 1}, {true, "", true, 1}}
 	}
 	kinds := map[string]int64{}
+	outcomes := map[string]int64{}
 	per := map[string]any{}
 	for _, p := range plans {
 		if r.Expired() {
 			break
 		}
 		x := &explorer{r: r, cluster: p.cluster, initPolicy: p.initPolicy, configs: alphabet(p.thoroughAB, p.cluster), maxDepth: 3,
-			maxFaults: p.maxFaults, workers: runtime.NumCPU(), faultKinds: kinds}
+			maxFaults: p.maxFaults, workers: runtime.NumCPU(), faultKinds: kinds, outcomes: outcomes}
 		t0, tr0 := time.Now(), r.Transitions
 		x.explore()
 		per[fmt.Sprintf("%s/configs=%d/faulted_runs≤%d", x.label(), len(x.configs), p.maxFaults)] = map[string]any{
-			"states": len(x.nodes), "runs": r.Transitions - tr0, "wall_s": time.Since(t0).Seconds()}
+			"states": x.stateCount, "runs": r.Transitions - tr0, "wall_s": time.Since(t0).Seconds()}
 	}
+	for k, v := range outcomes {
+		r.Outcome(k)
+		_ = v
+	}
+	pprof.StopCPUProfile()
+	r.Extra["outcome_counts"] = outcomes
 	r.Extra["per_exploration"] = per
 	r.Extra["fault_points_by_statement_kind"] = kinds
 	r.Extra["max_runs_per_sequence"] = 3
